@@ -374,6 +374,7 @@ m('reload-counter-from-last-row', ['C10'], CAT, '''		if uint32(oid)+1 > nextTabl
 m('heap-insert-link-page-unpinned-clean', ['C13', 'C09'], TH, '''			newPage.Init(p.GetPageID(), currentPageID, t.logManager, t.lockManager, txn, false)
 			t.bpm.UnpinPage(currentPage.GetPageID(), true)''', '''			newPage.Init(p.GetPageID(), currentPageID, t.logManager, t.lockManager, txn, false)
 			t.bpm.UnpinPage(currentPage.GetPageID(), false)''', ['C13-R8 [(*storage/access.TableHeap).InsertTuple:modified-page-unpinned-clean]'])
+m('hash-iterator-unpins-clean', ['C13', 'C07'], 'lib/container/hash/linear_probe_hash_table_iterator.go', '''		itr.bpm.UnpinPage(itr.blockID, true)''', '''		itr.bpm.UnpinPage(itr.blockID, false)''', ['C13-R8 [(*container/hash.LinearProbeHashTable).Remove:modified-page-unpinned-clean]'])
 # drop the one that needs a helper that does not exist
 M = [x for x in M if x['id'] != 'insert-executor-unlocks-early']
 os.chdir(os.path.dirname(os.path.abspath(__file__)) + '/..')
